@@ -49,7 +49,15 @@ def set_draw(value):
 
 
 def selftest():
-    """The sampler is really the one beartype's generated code uses."""
+    """The sampler is really the one beartype's generated code uses: either beartype's code generator
+    captured our function object, or the verdict on a partly violating list follows the draw. (Only one of
+    the two is required so that a behavioural change in beartype is reported by the property checks as a
+    violation, not by this self-test as a harness error.)"""
+    import sys as _sys
+    import beartype.door  # noqa: F401
+    for name, mod in list(_sys.modules.items()):
+        if name.startswith('beartype.') and getattr(mod, '__dict__', {}).get('getrandbits') is controlled_getrandbits:
+            return True
     from beartype.door import is_bearable
     x = [1, 2, 'a', 4]
     got = []
